@@ -196,12 +196,44 @@ def conc_oracle(case: dict, steps, results) -> str | None:
 # interesting states (for the evidence only; computed from the model's answers / the observed trace)
 
 
+def spelled(case: dict) -> dict:
+    """the Python objects the decorator was given for period / ttl"""
+    form = case.get("style", {}).get("form", "int")
+    out = {k: rl.secs(case["p"][k], form) for k in ("period", "ttl") if case["p"].get(k) is not None}
+    if case.get("style", {}).get("callable") and case["kind"] != "breaker":
+        out["through"] = "a callable returning it"
+    return out
+
+
+def spelling_class(case: dict) -> list[str]:
+    out = []
+    sp = spelled(case)
+    via = "callable_returning_" if sp.pop("through", None) else ""
+    for k, v in sp.items():
+        name = type(v).__name__
+        if name == "timedelta" and v.days:
+            name += "_with_days"
+        if name == "str":
+            name += "_composite" if sum(c.isalpha() for c in v) > 1 else "_digits" if v.strip().isdigit() else "_seconds"
+        out.append(via + name + ("_an_hour_or_more" if case["p"][k] >= rl.HOUR else ""))
+    return out
+
+
 def interesting_seq(case: dict, ev: dict) -> set[str]:
     kind, p = case["kind"], case["p"]
     out: set[str] = set()
     obs = [o.split(":") for o in ev["impl"] if "bad:" not in o]
     ts = [int(o[0]) for o in obs]
     period = p["period"]
+    if max(period, p.get("ttl") or 0) >= rl.HOUR:
+        # durations of hours and days: a call that is still held back an hour or more after the previous call, and a
+        # call let through again after such a duration ran out
+        held = "open" if kind == "breaker" else "rej"
+        for i in range(1, len(obs)):
+            if ts[i] - ts[i - 1] >= rl.HOUR and obs[i][1] == held:
+                out.add("a call still rejected an hour or more after the previous call (duration of hours or days)")
+            if ts[i] - ts[i - 1] >= rl.HOUR and obs[i][1] != held and any(o[1] == held for o in obs[:i]):
+                out.add("a call let through again after a duration of hours or days ran out")
     if kind in ("fixed", "slide"):
         ttl = p.get("ttl") or period
         runs = [t for t, o in zip(ts, obs) if o[1] == "run"]
@@ -336,7 +368,14 @@ def shrink_seq(case: dict, pred) -> dict:
                 if pred(dict(cur, calls=trial)):
                     cur = dict(cur, calls=trial)
                     break
-    for key in ("purge", "direct"):
+    # the plainest spelling of period / ttl that still fails: a replay that keeps `timedelta` / a string needs it
+    if cur.get("style", {}).get("form", "int") != "int":
+        for form in ("int", "float"):
+            trial = dict(cur, style=dict(cur["style"], form=form))
+            if pred(trial):
+                cur = trial
+                break
+    for key in ("purge", "direct", "callable"):
         if cur.get("style", {}).get(key):
             trial = dict(cur, style=dict(cur["style"], **{key: False}))
             if pred(trial):
@@ -348,10 +387,11 @@ def report_seq(chk: Check, case: dict, ev: dict, origin: str):
     if ev["spec"] != "holds":
         small = shrink_seq(case, seq_fails_spec)
         ev2 = eval_seq(small)
-        what = (f"{small['kind']} {small['p']}: observed calls {ev2['impl']} contradict the property"
+        what = (f"{small['kind']} {small['p']} (ticks; handed over as {spelled(small)}): observed calls {ev2['impl']} contradict the property"
                 + (f" (call {ev2['bad'][0]}: {ev2['impl'][ev2['bad'][0]]})" if ev2["bad"] else " (executable spec of Spec/RateLimit.lean fails on the implementation's trace)")
                 + f"; model says {ev2['model']}")
         chk.violation(what, dict(small, impl=ev2["impl"], model=ev2["model"], spec=ev2["spec"], origin=origin,
+                                 handed_over={k: repr(v) for k, v in spelled(small).items()},
                                  replay_cmd="./check C15 --replay <this file>"),
                       signature=f"{small['kind']}-spec")
     else:
@@ -359,8 +399,9 @@ def report_seq(chk: Check, case: dict, ev: dict, origin: str):
         ev2 = eval_seq(small)
         d = ev2["diff"]
         chk.violation(
-            f"correspondence broken: {small['kind']} {small['p']} call {d}: implementation {ev2['impl'][d]} but model {ev2['model'][d]}; the property still holds on this trace",
+            f"correspondence broken: {small['kind']} {small['p']} (ticks; handed over as {spelled(small)}) call {d}: implementation {ev2['impl'][d]} but model {ev2['model'][d]}; the property still holds on this trace",
             dict(small, impl=ev2["impl"], model=ev2["model"], spec=ev2["spec"], origin=origin,
+                 handed_over={k: repr(v) for k, v in spelled(small).items()},
                  broken=f"correspondence model <-> cashews/decorators ({small['kind']})", replay_cmd="./check C15 --replay <this file>"),
             signature=None, no_input=True)
 
@@ -384,9 +425,9 @@ def report_conc(chk: Check, case: dict, ev: dict, origin: str):
             small["ticks"] = ddmin(small["ticks"], lambda t: bad(dict(small, ticks=t), want_spec))
     ev2 = eval_conc(small)
     rep = dict(small, steps=ev2["steps"], results=ev2["results"], model_steps=ev2["model_steps"],
-               model_results=ev2["model_results"], origin=origin, replay_cmd="./check C15 --replay <this file>")
+               model_results=ev2["model_results"], origin=origin, handed_over={k: repr(v) for k, v in spelled(small).items()}, replay_cmd="./check C15 --replay <this file>")
     if ev2["spec"] is not None:
-        chk.violation(f"interleaving of {len(small['tasks'])} concurrent {small['kind']} callers {small['p']}: {ev2['spec']}; steps {ev2['steps']}",
+        chk.violation(f"interleaving of {len(small['tasks'])} concurrent {small['kind']} callers {small['p']} (ticks; handed over as {spelled(small)}): {ev2['spec']}; steps {ev2['steps']}",
                       rep, signature=f"{small['kind']}-sched-spec")
     else:
         d = ev2["diff"]
@@ -477,6 +518,7 @@ def run(chk: Check) -> int:
     decs: dict[str, int] = {}
     samples = []
     grid: set = set()
+    spellings: dict[str, int] = {}
 
     def note(case, marks, key):
         for m in marks:
@@ -501,6 +543,8 @@ def run(chk: Check) -> int:
         kind = case["kind"]
         kinds["seq-" + kind] = kinds.get("seq-" + kind, 0) + 1
         grid.add((kind, json.dumps(case["p"], sort_keys=True)))
+        for c in spelling_class(case):
+            spellings[c] = spellings.get(c, 0) + 1
         for o in ev["impl"]:
             d = o.split(":")[1]
             decs[f"{kind}:{d}"] = decs.get(f"{kind}:{d}", 0) + 1
@@ -549,6 +593,8 @@ def run(chk: Check) -> int:
             evaluations += 1
             kind = case["kind"]
             kinds["conc-" + kind] = kinds.get("conc-" + kind, 0) + 1
+            for c in spelling_class(case):
+                spellings["conc:" + c] = spellings.get("conc:" + c, 0) + 1
             marks = interesting_conc(case, ev)
             note(case, marks, ("conc", kind, json.dumps(case["p"], sort_keys=True), json.dumps(ev["steps"])))
             if marks and sum(1 for s in samples if s.get("mode") == "conc") < 2 and len(ev["steps"]) <= 12:
@@ -581,7 +627,10 @@ def run(chk: Check) -> int:
         "distinct_nontrivial": len(distinct),
         "rule": "sequential call histories of 1..24 calls (waits clustered at 0/1 tick bursts, period-1/period/period+1, ban/open ttl -1/0/+1, long gaps; "
                 "scripted ok/fail/other) round-robin over rate_limit / slice_rate_limit / circuit_breaker with parameters drawn from the grids, run through the public Cache facade "
-                "(period/ttl spelled as int, float, str, timedelta; custom action or default error; purge task on or off; 15% through the bare decorator); plus interleavings of 2-3 concurrent "
+                "(period/ttl spelled as int, float, timedelta, '90s', '1d1m30s', '1d0h1m30s', ' 1D1M30S ', bare digits - period_ttl_spellings counts them by the Python type handed over; "
+                "30% of the cases with periods / ttls of 90 s .. 7 days, so that timedeltas have a non-zero `days` field and strings use the d/h/m units, with waits also aimed just past what is left of "
+                "the duration when one unit of its d/h/m/s decomposition is dropped or kept alone; the model gets ticks computed by the harness, never through cashews.ttl; "
+                "custom action or default error; purge task on or off (off for the long durations); 15% through the bare decorator); plus interleavings of 2-3 concurrent "
                 "callers at backend-command granularity with clock steps in between (exhaustive for the listed small programs, random schedules otherwise). "
                 "A case is non-trivial iff it reached at least one of the interesting states counted in interesting_states_cases; distinct = distinct (kind, params, calls) resp. (kind, params, executed step sequence)",
         "samples": samples,
@@ -589,6 +638,7 @@ def run(chk: Check) -> int:
         "case_histogram": kinds,
         "decision_histogram": decs,
         "parameter_points_visited": len(grid),
+        "period_ttl_spellings": spellings,
         "interesting_states_cases": interesting,
         "exhaustive": bool(exhaustive_info) and all(e["complete"] for e in exhaustive_info),
         "exhaustive_subspaces": exhaustive_info,
@@ -611,7 +661,7 @@ def replay(chk: Check, path: str) -> int:
         return 1 if isinstance(bad, dict) else 0
     if c.get("mode", "seq") == "seq":
         ev = eval_seq(c)
-        print(rl.case_line(c["kind"], c["p"]), c.get("style"))
+        print(rl.case_line(c["kind"], c["p"]), c.get("style"), "handed over as", spelled(c))
         for (dt, oc), i, m in zip(c["calls"], ev["impl"], ev["model"]):
             print(f"call +{dt:<3d} {oc:5s} impl={i:16s} model={m}")
         print(f"property on the implementation's trace: {ev['spec']}")
